@@ -1,4 +1,5 @@
 import DclabModel.Model.Summary
+import Batteries.Data.List.Perm
 /-!
 Helper lemmas for C20: `vmin`/`vmax`/`vadd` are associative with identity `nan` resp. `fin 0`,
 hence the NaN-ignoring folds distribute over `++`; `vscale (vdiv s n) n = s`.
@@ -260,5 +261,161 @@ theorem build_good : ∀ (h : Hist), Trusted h → ∀ (s : SDs), build .fixed h
     split at hs
     · cases hs
     · exact store_good false none (by intro s h; cases h) _ s hs
+
+/-! ### order does not matter; mapped basins -/
+
+theorem vmin_comm (a b : Val) : vmin a b = vmin b a := by
+  cases a <;> cases b <;> simp [vmin, Val.le] <;> grind
+
+theorem vmax_comm (a b : Val) : vmax a b = vmax b a := by
+  cases a <;> cases b <;> simp [vmax, Val.le] <;> grind
+
+theorem vadd_comm (a b : Val) : vadd a b = vadd b a := by
+  cases a <;> cases b <;> simp [vadd] <;> grind
+
+theorem nanmin_perm {a b : List Val} (h : a.Perm b) : nanmin a = nanmin b := by
+  unfold nanmin
+  exact h.foldl_eq' (fun x _ y _ z => by rw [vmin_assoc, vmin_comm x y, ← vmin_assoc]) nan
+
+theorem nanmax_perm {a b : List Val} (h : a.Perm b) : nanmax a = nanmax b := by
+  unfold nanmax
+  exact h.foldl_eq' (fun x _ y _ z => by rw [vmax_assoc, vmax_comm x y, ← vmax_assoc]) nan
+
+theorem nansum_perm {a b : List Val} (h : a.Perm b) : nansum a = nansum b := by
+  unfold nansum valid
+  exact (h.filter _).foldl_eq' (fun x _ y _ z => by rw [vadd_assoc, vadd_comm x y, ← vadd_assoc]) _
+
+theorem nancount_perm {a b : List Val} (h : a.Perm b) : nancount a = nancount b := by
+  unfold nancount valid
+  exact (h.filter _).length_eq
+
+theorem truth_perm {a b : List Val} (h : a.Perm b) : truth a = truth b := by
+  unfold truth nanmean
+  rw [nanmin_perm h, nanmax_perm h, nansum_perm h, nancount_perm h]
+
+theorem gather_range (o : List Val) : gather o (List.range o.length) = o := by
+  unfold gather
+  apply List.ext_getElem
+  · simp
+  · intro i h1 h2
+    simp at h1
+    simp [h1]
+
+/-- a mapping that is a permutation of the basin's indices merely reorders the events -/
+theorem gather_perm (o : List Val) (m : List Nat) (h : m.Perm (List.range o.length)) :
+    (gather o m).Perm o := by
+  have := h.map (fun i => o.getD i nan)
+  rw [show (List.range o.length).map (fun i => o.getD i nan) = o from gather_range o] at this
+  exact this
+
+theorem gather_append (o : List Val) (m1 m2 : List Nat) :
+    gather o (m1 ++ m2) = gather o m1 ++ gather o m2 := by simp [gather]
+
+theorem proxyArray_fresh (s : SDs) (m : List Nat) :
+    (proxyArray { origin := s, map := m, cache := none }).2 = gather s.data m := rfl
+
+theorem nanmax_cons (x : Val) (l : List Val) : nanmax (x :: l) = vmax x (nanmax l) := by
+  have := nanmax_append [x] l
+  simpa [nanmax, vmax_nan_left] using this
+
+/-- the basin feature that is 1 at event `j` and 0 elsewhere -/
+def indicator (n j : Nat) : List Val := (List.range n).map (fun i => if i = j then fin 1 else fin 0)
+
+theorem nanmax_zero_one : ∀ (l : List Val), (∀ x ∈ l, x = fin 0 ∨ x = fin 1) →
+    (nanmax l = nan ∨ nanmax l = fin 0 ∨ nanmax l = fin 1) ∧ (fin 1 ∈ l → nanmax l = fin 1)
+  | [], _ => ⟨Or.inl rfl, by simp⟩
+  | x :: l, h => by
+    obtain ⟨ih1, ih2⟩ := nanmax_zero_one l (fun y hy => h y (List.mem_cons_of_mem _ hy))
+    rw [nanmax_cons]
+    have hx := h x List.mem_cons_self
+    constructor
+    · rcases hx with hx | hx <;> rcases ih1 with h1 | h1 | h1 <;> rw [hx, h1] <;> decide +kernel
+    · intro hm
+      rcases List.mem_cons.mp hm with hm | hm
+      · rw [← hm]
+        rcases ih1 with h1 | h1 | h1 <;> rw [h1] <;> decide +kernel
+      · rw [ih2 hm]
+        rcases hx with hx | hx <;> rw [hx] <;> decide +kernel
+
+theorem nanmax_all_zero : ∀ (l : List Val), l ≠ [] → (∀ x ∈ l, x = fin 0) → nanmax l = fin 0
+  | [], h, _ => absurd rfl h
+  | [x], _, h => by rw [h x List.mem_cons_self]; decide +kernel
+  | x :: y :: l, _, h => by
+    rw [nanmax_cons, nanmax_all_zero (y :: l) (by simp) (fun z hz => h z (List.mem_cons_of_mem _ hz)),
+      h x List.mem_cons_self]
+    decide +kernel
+
+theorem indicator_getD (n j i : Nat) (hi : i < n) :
+    (indicator n j).getD i nan = if i = j then fin 1 else fin 0 := by
+  simp [indicator, hi]
+
+/-- **omissions matter**: whatever the length of the mapping, as soon as it omits one basin event
+there is a basin feature whose maximum the mapped feature does not have -/
+theorem omitted_index_changes_max (n j : Nat) (m : List Nat) (hj : j < n)
+    (hm : mapOk n m = true) (hne : m ≠ []) (hom : j ∉ m) :
+    nanmax (gather (indicator n j) m) = fin 0 ∧ nanmax (indicator n j) = fin 1 := by
+  constructor
+  · apply nanmax_all_zero
+    · simpa [gather] using hne
+    · intro x hx
+      simp only [gather, List.mem_map] at hx
+      obtain ⟨i, hi, rfl⟩ := hx
+      have hlt : i < n := by
+        simp only [mapOk, List.all_eq_true, decide_eq_true_eq] at hm
+        exact hm i hi
+      rw [indicator_getD n j i hlt]
+      have : i ≠ j := fun h => hom (h ▸ hi)
+      simp [this]
+  · apply (nanmax_zero_one (indicator n j) ?_).2
+    · simp only [indicator, List.mem_map, List.mem_range]
+      exact ⟨j, hj, by simp⟩
+    · intro x hx
+      simp only [indicator, List.mem_map] at hx
+      obtain ⟨i, _, rfl⟩ := hx
+      by_cases h : i = j <;> simp [h]
+
+/-- appending to a dataset whose summaries are absent or true -/
+theorem appends_exact_from (s0 : SDs) (hg : Good s0) (chunks : List (List Val)) (last : List Val)
+    (hne : last ≠ []) (s : SDs)
+    (h : (chunks ++ [last]).foldl (fun ds c => storeFeature .fixed false ds c) (some s0) = some s) :
+    Exact s ∧ s.data = s0.data ++ (chunks ++ [last]).flatten := by
+  have hd := appends_data (chunks ++ [last]) (some s0)
+  rw [h] at hd
+  simp only [Option.map_some, Option.getD_some] at hd
+  refine ⟨?_, hd⟩
+  rw [List.foldl_append] at h
+  simp only [List.foldl_cons, List.foldl_nil] at h
+  unfold storeFeature at h
+  have : last.isEmpty = false := by
+    cases last with
+    | nil => exact absurd rfl hne
+    | cons _ _ => rfl
+  simp only [this, Bool.false_eq_true, if_false] at h
+  injection h with h
+  subst h
+  exact (write_exact _ (appends_from_good chunks (some s0)
+    (by intro s h; cases h; exact hg)) last).1
+
+/-- a mapping of the basin's length with valid indices that references every basin event is a
+permutation of the basin's events (pigeonhole) -/
+theorem perm_of_covering (n : Nat) (m : List Nat) (hl : m.length = n)
+    (hc : ∀ j, j < n → j ∈ m) : m.Perm (List.range n) := by
+  have hsub : List.range n ⊆ m := by
+    intro j hj
+    exact hc j (List.mem_range.mp hj)
+  have hsp := List.subperm_of_subset List.nodup_range hsub
+  exact (hsp.perm_of_length_le (by simp [hl])).symm
+
+/-- **characterisation.** For a mapping as long as the basin (valid indices), exactly one of the two
+holds: it is a permutation of the basin's events, or it omits a basin event -/
+theorem same_length_perm_or_omits (n : Nat) (m : List Nat) (hl : m.length = n) :
+    m.Perm (List.range n) ∨ ∃ j, j < n ∧ j ∉ m := by
+  by_cases h : ∀ j, j < n → j ∈ m
+  · exact Or.inl (perm_of_covering n m hl h)
+  · right
+    have ⟨j, hj⟩ := Classical.not_forall.mp h
+    exact ⟨j, Classical.not_imp.mp hj⟩
+
+
 
 end DclabModel.Summary
